@@ -8,13 +8,13 @@ export CARGO_NET_OFFLINE=true
 cd "$WT" || exit 2
 git checkout -q -- . ; rm -f tests/seed_demo.rs
 cp "$DEMO" tests/seed_demo.rs
-demo_clean=$(cargo test --offline --test seed_demo 2>&1 | grep -E "^test result" | tail -1)
+demo_clean=$(cargo test --offline ${DEMO_FEATURES:-} --test seed_demo 2>&1 | grep -E "^test result" | tail -1)
 git apply "$PATCH" || { echo "RESULT patch-does-not-apply"; exit 1; }
 b1=$(cargo build --offline --features verif_hooks 2>&1 | grep -c "^error")
 b2=$(cargo build --offline --features mock_salts 2>&1 | grep -c "^error")
 rm -f tests/seed_demo.rs
 suite=$(cargo test --workspace --no-fail-fast --offline 2>&1 | grep -E "^test result" | tr '\n' ';')
 cp "$DEMO" tests/seed_demo.rs
-demo_mut=$(cargo test --offline --test seed_demo 2>&1 | grep -E "^test result" | tail -1)
+demo_mut=$(cargo test --offline ${DEMO_FEATURES:-} --test seed_demo 2>&1 | grep -E "^test result" | tail -1)
 rm -f tests/seed_demo.rs; git checkout -q -- .
 echo "RESULT demo_clean=[$demo_clean] build_err_hooks=$b1 build_err_mock=$b2 suite=[$suite] demo_mut=[$demo_mut]"
